@@ -65,7 +65,7 @@ class C14(Prop):
         return pool
 
     def op_pool(self):
-        ops = [("system", 0), ("system", 1), ("system", 2), ("bounds", "ub"), ("bounds", "lb"), ("bounds", "both"),
+        ops = [("system", 0), ("system", 1), ("system", 2), ("bounds", "ub"), ("bounds", "lb"), ("bounds", "both"), ("bounds", "shift"),
                ("adapt", 0), ("adapt", 1), ("adapt", 2), ("baseline", 0), ("baseline", 1),
                ("background", 0, True, False), ("background", 1, False, False), ("background", 0, True, True),
                ("sysadapt", True, False), ("sysadapt", False, True), ("targets", False), ("targets", True), ("fit",), ("query",)]
@@ -138,7 +138,12 @@ class C14(Prop):
             elif kind == "bounds":
                 lb = (np.array([0.125 * (i + 1) for i in range(n_cur)]) if o[1] in ("lb", "both") else None)
                 ub = (np.array([3.0 + 0.5 * i for i in range(n_cur)]) if o[1] in ("ub", "both") else None)
-                est.register_bounds(lb=lb, ub=ub)
+                if o[1] == "shift":
+                    # the operating window is moved up, one side at a time (new lower bounds above the old upper bounds); nothing is asked in between
+                    lb = np.array([6.5 + 0.5 * i for i in range(n_cur)]); ub = np.array([8.0 + 0.5 * i for i in range(n_cur)])
+                    est.register_bounds(lb=lb); est.register_bounds(ub=ub)
+                else:
+                    est.register_bounds(lb=lb, ub=ub)
                 rec.update(lb=None if lb is None else lb.tolist(), ub=None if ub is None else ub.tolist())
             elif kind == "adapt":
                 K = pool["Ks"][o[1]]
@@ -194,6 +199,12 @@ class C14(Prop):
                                 r.append(f())
                             except Exception as e:  # noqa  (e.g. neutral point outside the chromatic gamut: same on both calls)
                                 r.append(np.array([hash(type(e).__name__) % 1000], dtype=float))
+                if est.registered and hasattr(est, "B"):
+                    # fitting with EXPLICIT targets is a query too: the registered targets stay what they are
+                    try:
+                        r.append(np.hstack(call(lambda B_: est.fit(B_, **HI), np.array([[2.0, 3.5, 1.0]]))))
+                    except Exception as e:  # noqa
+                        r.append(np.array([hash(type(e).__name__) % 1000], dtype=float))
                 return [np.asarray(v, dtype=float) for v in r]
             q1 = queries(); q2 = queries(); snap2 = snapshot()
             def same(a, b):
